@@ -479,6 +479,19 @@ class ExprMixin:
         return self.binop(e.op, l, r, p, f"line {getattr(e, 'lineno', '?')}")
 
     def binop(self, op, l, r, p, note):
+        if isinstance(op, ast.Div) and all(isinstance(v.ty, T.Obj) and v.ty.cls == "NpArray2" for v in (l, r)):
+            # matrix / column (numpy broadcasting): every cell of row i divided by the column's entry i; assumed library contract
+            if not (z3.is_int_value(r.fields["_c"].t) and r.fields["_c"].t.as_long() == 1):
+                raise Unsupported("division of arrays other than matrix / column")
+            rows, cols, m, d = l.fields["_r"].t, l.fields["_c"].t, l.fields["_m"], r.fields["_m"]
+            if not self.spec_mode:
+                self._raise_if(p, rows != r.fields["_r"].t, "ValueError", note)
+            pt = T.Pair(T.INT, T.INT)
+            val = fresh("div_val", z3.ArraySort(pt.sort(), T.R))
+            i, j = fresh("i", T.I), fresh("j", T.I)
+            self._assume(p, z3.ForAll([i, j], z3.Implies(z3.And(0 <= i, i < rows, 0 <= j, j < cols),
+                                                         val[pt.mk(i, j)] == TH.RDIV(m.val[pt.mk(i, j)], d.val[pt.mk(i, 0)])), patterns=[val[pt.mk(i, j)]]))
+            return T.sv_obj("NpArray2", {"_m": T.sv_map(pt, T.REAL, m.dom, val), "_r": T.sv_int(rows), "_c": T.sv_int(cols)})
         # set algebra
         if isinstance(l.ty, T.Set) or isinstance(r.ty, T.Set) or l.ty == T.EMPTYSET or r.ty == T.EMPTYSET:
             st = l.ty if isinstance(l.ty, T.Set) else r.ty
@@ -539,6 +552,8 @@ class ExprMixin:
         return T.sv_bool(z3.And(terms) if len(terms) > 1 else terms[0])
 
     def compare(self, op, l, r, p, note):
+        if T.OPAQUE in (l.ty, r.ty):
+            return fresh("opaque_cmp", T.B)      # a comparison with an opaque value: either outcome
         if isinstance(op, ast.In):
             return self.member(l, r, p)
         if isinstance(op, ast.NotIn):
